@@ -23,6 +23,7 @@ def run(ctx):
     reps = 3 if q else 6
     bit_same = bit_total = 0
     worst_rel = 0.0
+    gen_stats = {"cy": {}, "py": {}}
     for n in ladder:
         for rep in range(reps):
             m = (rng.choice([1, 2, 5, 17, 64, 65, 100, 130]) if n <= 400 else rng.choice([1, 2, 5, 17, 64, 70])) if n <= 2000 else rng.choice([1, 4])
@@ -76,6 +77,17 @@ def run(ctx):
                         ctx.mismatch("sort order used by kernel %s does not weakly sort the distances" % name, small_case, impl=ords[name][:1], model=ans)
                     elif not ctx.vec_close(out[name].tolist(), [Fraction(x) for x in ans["ok"]], scale):
                         ctx.mismatch("kernel %s differs from the exact rational model" % name, small_case, impl=out[name].tolist()[:8], model=ans["ok"][:8])
+            if n <= 400:
+                # the kernels TRANSLATED from this tree's source (lean/Gen), run on the same arguments with the sort results the implementation obtained
+                for name in ("cy", "py"):
+                    kern.check_translated(ctx, name, out[name], labels, dist, util, nulls, ords[name], small_case, bound, gen_stats[name])
+            if n <= 40 and ords["cy"] is not None and ctx.gendriver is not None and ctx.driver is not None:
+                # theorem TIE_cy_model executed: translated kernel over Q = hand-written model over Q, exactly
+                g = ctx.gen(kern.gen_req("cy", "rat", labels, dist, util, nulls, ords["cy"]))
+                mm = ctx.model(kern.model_kernel_req(labels, ords["cy"], util, nulls))
+                if g and mm and "ok" in g and "ok" in mm and [Fraction(x) for x in g["ok"]] != [Fraction(x) for x in mm["ok"]]:
+                    ctx.mismatch("translated kernel over Q differs from the hand-written model over Q (contradicts theorem TIE_cy_model: hypotheses violated by the harness?)",
+                                 small_case, impl=g["ok"][:8], model=mm["ok"][:8], failing_input=False, broken="thm:TIE_cy_model")
             if n <= 2000 and ords["cy"] is not None and ctx.driver is not None:
                 f = ctx.model(kern.model_kernel_req(labels, ords["cy"], util, nulls, op="kernelF"))
                 bit_total += 1
@@ -86,6 +98,7 @@ def run(ctx):
             break
     ctx.extra["bit_identical_cy_vs_Float_model"] = "%d/%d" % (bit_same, bit_total)
     ctx.extra["worst_cy_vs_py_relative_difference"] = worst_rel
+    ctx.extra["bit_identical_impl_vs_TRANSLATED_source_Float"] = {k: "%d/%d" % (v.get("same", 0), v.get("total", 0)) for k, v in gen_stats.items()}
     # the binary lying in the tree (informational only)
     tree_so = I.get("tree_so")
     if tree_so:
